@@ -55,6 +55,17 @@ PROPS = {
           'table (c18expected) + any panic must be a *typecheck.Error located at the calling line. Each Case is one (constructor, slice type) '
           'group; distinct triples are counted in |triples|.',
           nbatch=(4, 4), must_observe=['accepted', 'rejected', 'calls']),
+ 'C01': P('exploration',
+          'cases = (session configuration, program spec): (a) fixed regression list (ScanReader with 0/1/n lines vs shards, fan-out > vector, '
+          'low-accept filters across 128, sub-slice consumed with two partition counts, Head(0)/Head>shard, prefix-2 reduce, unit Scan result) on '
+          'local p=1, p=4 and a 2-proc-per-machine testsystem; (b) operator chains of length <=2 (quick, every 7th) / <=3 (thorough) over '
+          'const/readerfunc/scanreader sources x sizes {0,1,127,128,129,257} x shards {1,2,3,5}; (c) seeded random DAGs with sharing, multi-input '
+          'cogroup, nested shuffles, prefixes>1, 10 column kinds incl. gob-only and pointer-carrying values: 150 local + 12 distributed (quick), '
+          '5000 + 300 (thorough). Oracle: sequential reference evaluator (exact per-shard sequence where the program fixes order, multiset '
+          'otherwise, sub-multiset for Head after a shuffle) + recorder of Scan/WriterFunc callbacks (every row once, one end-of-stream). '
+          'Non-trivial: >=2 operators and a run that produced rows or an explicitly empty result; distinct by spec+configuration.',
+          nbatch=(16, 16), timeout=(900, 3400),
+          must_observe=['programs_run', 'programs_with_shuffle', 'programs_on_bigmachine', 'programs_with_sharing']),
 }
 
 META = {
@@ -93,4 +104,11 @@ META = {
          'only checked for panic shape.',
     note='The table encodes the doc comments; prefix inheritance of Map/Flatmap and Fold accumulator key kinds are treated as undocumented.',
     technique='exhaustive enumeration with an independent schema table as oracle'),
+ 'C01': dict(
+    text='Exploration: generated and enumerated programs are run through real sessions (local and testsystem-distributed) and compared '
+         'with a sequential reference evaluation of the documented operator meanings; violations are minimised by re-running the real code.',
+    note='Trusts the reference evaluator (progref.go) and the pure user functions shared by program and oracle. Fold is never fed prefix>1 '
+         'inputs (documented BUG), Map/Flatmap never consume prefix>1 inputs (C18 known finding), uint8 columns are left to C05. '
+         'Exactly-once of callbacks is asserted only for programs without shared sub-slices (shared sub-slices are recompiled per partitioning by design).',
+    technique='differential runtime monitoring against a reference evaluator, with delta-debugging of witnesses'),
 }
